@@ -283,14 +283,22 @@ def process_child_nodes(
     if frame_depth + 1 >= var_collector.max_var_depth:
         return []
 
-    class VariableParent(ParentNode):
-
-        def add_child(self, child: VariableId):
-            # look for the child in the lookup and add this id to it
-            var_collector.append_child(variable_id, child)
-
     # scan the child based on type
-    return find_children_for_parent(var_collector, VariableParent(), var_value, variable_type)
+    return find_children_for_parent(var_collector, VariableParent(var_collector, variable_id), var_value, variable_type)
+
+
+class VariableParent(ParentNode):
+    """The parent of the children of a variable (module level so that it is released without the garbage collector)."""
+
+    def __init__(self, var_collector: Collector, variable_id: str):
+        """Create a new parent that attaches its children to the given variable."""
+        self.var_collector = var_collector
+        self.variable_id = variable_id
+
+    def add_child(self, child: VariableId):
+        """Add a child to this parent."""
+        # look for the child in the lookup and add this id to it
+        self.var_collector.append_child(self.variable_id, child)
 
 
 def correct_names(name, val):
